@@ -981,6 +981,11 @@ def _finalize_parse_info(text, nodes, pos, fullparse):
     line_numbers.append(line_numbers[-1] if line_numbers else 1)
     column_numbers.append(column_numbers[-1] + 1 if column_numbers else 1)
 
+    # (And as many as it takes when the parse started beyond the end.)
+    while len(line_numbers) <= pos:
+        line_numbers.append(line_numbers[-1])
+        column_numbers.append(column_numbers[-1] + 1)
+
     for node in visit(nodes):
         pos_info = node._metadata.position_info
         # An object that a nested parse has finished already keeps its positions
